@@ -30,8 +30,12 @@ BASES = ["for a in a ; do a ; done", "for a do a ; done", "for a \n in a a \n do
          "a ( ) { a ; }", "break ; a", "{ a ; } > a", "( a ) | ! a && a", "x=1 a > a 2> a &", "((1)) ; a", "! a | a || { a ; }", "if a ; then ( a ) fi"]
 
 
-def gen(R, maxlen, mutations, simulate=None, name="rec", bases=None):
-    defs = "MCAlpha == %s\nMCBroken == %s\n" % (tla_seq(ALPHA), tla_seq(BROKEN))
+# the longest prefixes are enumerated over a smaller alphabet (one representative of each kind of token)
+ALPHA_SMALL = [t for t in ALPHA if t not in ("until", "2>", "||", "a$b", "fi''", "break", "((1))", "elif", "else")]
+
+
+def gen(R, maxlen, mutations, simulate=None, name="rec", bases=None, alpha=None):
+    defs = "MCAlpha == %s\nMCBroken == %s\n" % (tla_seq(alpha or ALPHA), tla_seq(BROKEN))
     if bases:
         defs += "MCInit == toks \\in {%s}\n" % ", ".join(tla_seq(["\n" if t == "\\n" else t for t in b.split(" ")]) for b in bases)
     cfg = (("INIT MCInit\nNEXT Stutter\n" if bases else "INIT Init\nNEXT Next\n") + "INVARIANT Emit\nCONSTANTS\n Alpha <- MCAlpha\n Broken <- MCBroken\n MaxLen = %d\n Mutations = %s\n"
@@ -51,18 +55,7 @@ def gen(R, maxlen, mutations, simulate=None, name="rec", bases=None):
 
 
 def validate(R, recs, name):
-    bad = []
-    shard = 60000
-    for s in range(0, len(recs), shard):
-        part = recs[s:s + shard]
-        path = R.path("obs", "%s-%d.ndjson" % (name, s))
-        vlib.write_ndjson(path, part)
-        res = R.tlc("RecCheck", "INIT Init\nNEXT Next\nINVARIANT Chk\n", env={"VERIF_OBS": path},
-                    name="%s-check%d" % (name, s), workers=1, timeout=3000)
-        if res.distinct != len(part):
-            raise vlib.MachineryError("RecCheck visited %d of %d" % (res.distinct, len(part)))
-        bad += [s + p[1] - 1 for p in res.prints if p and p[0] == "MISMATCH"]
-    return sorted(bad)
+    return sorted(s + p[1] - 1 for s, p in R.pvalidate("RecCheck", recs, 25000, name) if p[0] == "MISMATCH")
 
 
 def check(R, cases, name):
@@ -87,7 +80,7 @@ def check(R, cases, name):
 
 
 def run(R):
-    R.rule = ("cases = token strings classified by ShellRec.tla: every viable prefix up to MaxLen tokens (30-token alphabet: words, "
+    R.rule = ("cases = token strings classified by ShellRec.tla: every viable prefix up to 3 tokens over a 33-token alphabet and up to 4 tokens over 24 of them ( words, "
               "assignment, all reserved words, all control operators, newline, redirections, (( ))) extended by one more token or by a "
               "broken word; plus long accepted strings with all single-token deletions / duplications / swaps / insertions / substitutions, and the same mutations of 15 base programs (one per compound construct); "
               "distinct_nontrivial = distinct rejected or incomplete strings whose first offending token is not the first token")
@@ -96,9 +89,10 @@ def run(R):
                      "the position may be the start of any token of the dialect inside the consumed text (IO_NUMBER/operator and "
                      "(( word )) are split)", "messages are not compared"]
     if R.tier == "quick":
-        cases = gen(R, 4, False, name="recbfs4")
-        mut = gen(R, 9, True, simulate=60, name="recmut")
-        mut += gen(R, 20, True, name="recbases", bases=BASES)
+        parts = R.parallel([lambda: gen(R, 3, False, name="recbfs3"), lambda: gen(R, 4, False, name="recbfs4", alpha=ALPHA_SMALL),
+                            lambda: gen(R, 9, True, simulate=30, name="recmut"), lambda: gen(R, 20, True, name="recbases", bases=BASES)])
+        cases = parts[0] + parts[1]
+        mut = parts[2] + parts[3]
     else:
         cases = gen(R, 5, False, name="recbfs5")
         mut = gen(R, 12, True, simulate=1500, name="recmut")
